@@ -62,7 +62,18 @@ CHECKS["C06"] = dict(
     technique="deterministic simulation: seeded search over iteration-order / registration-order / environment configurations with replayable permutation scripts",
 )
 
-PENDING = {p: "check under construction in this session; will be claimed (see DESIGN.md section 0)" for p in ("C04","C05","C16","C20")}
+CHECKS["C05"] = dict(
+    category="exploration",
+    text="Seeded histories (4-24 operations) of register / re-register (twin function of identical signature, same function "
+         "again, other priority) / unregister / call / resolve on an Ovld, and of register / lookup / call_next-style "
+         "code-prefixed lookup on the public MultiTypeMap and TypeMap, biased to observe-mutate-observe. After every observation "
+         "the outcome is compared with a brand-new function (table) built from the model's surviving registrations.",
+    design_ref="DESIGN.md 4/C05",
+    note="Differential against the library's own fresh build; only valid method sets; canonical set order. Sampling.",
+    technique="deterministic simulation: seeded operation histories against an executable method-table reference model and fresh-build oracle",
+)
+
+PENDING = {p: "check under construction in this session; will be claimed (see DESIGN.md section 0)" for p in ("C04","C16","C20")}
 
 
 def main():
